@@ -4,6 +4,7 @@ import IsoVerif.Model.C09Labels
 import IsoVerif.Model.C09Tpm
 import IsoVerif.Model.C09Files
 import IsoVerif.Model.SampleFolders
+import IsoVerif.Model.C09Options
 
 namespace IsoVerif.Driver.C09
 open Lean IsoVerif.Driver IsoVerif.Gen IsoVerif.Model.C09
@@ -243,6 +244,37 @@ def ops : List (String × Handler) := growthOps ++ [
         | .tag t => Json.mkObj [("kind", ofStr "tag"), ("tag", ofStr t)]
         | .readId d => Json.mkObj [("kind", ofStr "read_id"), ("delim", ofStr d)]
         | .tableFile => Json.mkObj [("kind", ofStr "table")]) (parseReadGroup o))),
+  ("file_props", fun j => do
+      -- prepare_read_groups: null = nothing to split, else [FILE, READ_COL, GROUP_COL, DELIM]
+      let o ← jOpt jStr (← arg j "opt")
+      let orig ← jBool (← arg j "orig")
+      pure (match prepareReadGroups orig (o.map String.toList) with
+        | .error e => Json.mkObj [("error", Json.str "error"), ("exc", Json.str e.name)]
+        | .ok none => Json.null
+        | .ok (some p) => Json.arr #[ofStr (String.ofList p.file), ofInt p.readCol, ofInt p.groupCol, ofStr (String.ofList p.delim)])),
+  ("py_int", fun j => do
+      let s ← jStr (← arg j "s")
+      pure (match pyInt s.toList with
+        | .error e => Json.mkObj [("error", Json.str "error"), ("exc", Json.str e.name)]
+        | .ok i => ofInt i)),
+  ("split_file_map", fun j => do
+      -- create_read_grouper for `file` on one chromosome: read_map of the grouper, or the error
+      let hs ← jList (jList jStr) (← arg j "headers")
+      let m ← jList jStrPair (← arg j "map")
+      let chr ← jStr (← arg j "chr")
+      let alns ← jList (jPair jStr (jOpt jStr)) (← arg j "alns")
+      let orig ← jBool (← arg j "orig")
+      pure (match loadSplitFile orig (splitFileOf hs m chr alns) with
+        | .error e => Json.mkObj [("error", Json.str "error"), ("exc", Json.str e.name)]
+        | .ok d => ofList (fun p => Json.arr #[ofStr p.1, ofStr p.2]) d)),
+  ("parse_read_group_orig", fun j => do
+      let o ← jOpt jStr (← arg j "opt")
+      pure (ofExcept (fun s => match s with
+        | .default => Json.mkObj [("kind", ofStr "default")]
+        | .fileName => Json.mkObj [("kind", ofStr "file_name")]
+        | .tag t => Json.mkObj [("kind", ofStr "tag"), ("tag", ofStr t)]
+        | .readId d => Json.mkObj [("kind", ofStr "read_id"), ("delim", ofStr d)]
+        | .tableFile => Json.mkObj [("kind", ofStr "table")]) (parseReadGroupOrig o))),
   ("py_space_codes", fun _ => pure (ofNatList pySpaceCodes)),
   ("strip", fun j => do
       let s ← jStr (← arg j "s")
